@@ -377,3 +377,96 @@ func TestStoreScript(t *testing.T) {
 	res.Set("skipped", skipped)
 	res.Write(t)
 }
+
+// slowCache: a cache whose writes take a while (a slow disk), so that concurrent installs overlap their flushes.
+type slowCache struct {
+	mu    sync.Mutex
+	data  []byte
+	seed  atomic.Int64
+	count atomic.Int64
+}
+
+func (c *slowCache) Write(b []byte) error {
+	k := c.count.Add(1)
+	time.Sleep(time.Duration((k*7+c.seed.Load())%4) * time.Millisecond)
+	c.mu.Lock()
+	c.data = append([]byte(nil), b...)
+	c.mu.Unlock()
+	return nil
+}
+func (c *slowCache) Read() ([]byte, error) { c.mu.Lock(); defer c.mu.Unlock(); return c.data, nil }
+
+// TestCacheOrder (C13, real concurrency, race detector): lookups of new names and installing polls run
+// concurrently against a slow cache. Every install rewrites the whole document; whatever the interleaving,
+// once everything is quiet the document must hold every known secret at its installed version (the last
+// write is the one made with the last state) -- so a successor started from it with the service unreachable
+// serves exactly those values, and a FileClient agrees.
+func TestCacheOrder(t *testing.T) {
+	res := vh.NewResult(t, "store-cacheorder")
+	runs := vh.EnvInt("VERIF_TRACES", 20)
+	for run := 0; run < runs; run++ {
+		cl := &stressClient{ver: map[string]int{"a": 1, "x1": 1, "x2": 1, "x3": 1, "x4": 1}}
+		cache := &slowCache{}
+		cache.seed.Store(int64(run))
+		st, err := setec.NewStore(context.Background(), setec.StoreConfig{Client: cl, Secrets: []string{"a"}, AllowLookup: true,
+			PollInterval: -1, Logf: func(string, ...any) {}, Cache: cache})
+		if err != nil {
+			t.Fatal(err)
+		}
+		var wg sync.WaitGroup
+		for g, names := range [][]string{{"x1", "x2"}, {"x3", "x4"}} {
+			wg.Add(1)
+			go func(g int, names []string) {
+				defer wg.Done()
+				for _, n := range names {
+					if _, err := st.LookupSecret(context.Background(), n); err != nil {
+						res.Violate("cacheorder lookup", fmt.Sprintf("lookup of %q failed: %v", n, err), nil)
+					}
+				}
+			}(g, names)
+		}
+		wg.Add(1)
+		go func() {
+			defer wg.Done()
+			for p := 0; p < 4; p++ {
+				cl.bump()
+				if err := st.Refresh(context.Background()); err != nil {
+					res.Violate("cacheorder refresh", fmt.Sprintf("Refresh failed: %v", err), nil)
+				}
+			}
+		}()
+		wg.Wait()
+		// quiet: compare the document with what the store serves
+		doc, _ := cache.Read()
+		for _, n := range []string{"a", "x1", "x2", "x3", "x4"} {
+			h := st.Secret(n)
+			if h == nil {
+				res.Violate("cacheorder missing handle", fmt.Sprintf("run %d: %q is not known after its lookup returned", run, n), nil)
+				continue
+			}
+			_, ver, _ := ParseValue(h.Get())
+			e := NewEnv(nil)
+			entries, whole := e.parseDoc(doc)
+			if !whole {
+				res.Violate("cacheorder torn", fmt.Sprintf("run %d: the cache document carries a torn value", run), nil)
+			}
+			found := false
+			for _, d := range entries {
+				if d.Name == n {
+					found = true
+					if d.Ver != ver {
+						res.Violate("cacheorder stale "+n, fmt.Sprintf("run %d: when everything is quiet the store serves %q version %d but the cache document holds version %d "+
+							"(an older document overwrote a newer one)", run, n, ver, d.Ver), map[string]any{"doc": string(doc)})
+					}
+				}
+			}
+			if !found {
+				res.Violate("cacheorder absent "+n, fmt.Sprintf("run %d: when everything is quiet the store serves %q (version %d) but the cache document does not hold it "+
+					"(an older document overwrote a newer one)", run, n, ver), map[string]any{"doc": string(doc)})
+			}
+		}
+		st.Close()
+	}
+	res.Set("runs", runs)
+	res.Write(t)
+}
